@@ -30,7 +30,7 @@ Definition gantt_bars (s : solution) (m : gmode) : list gbar :=
   match effective_mode s m with
   | GTask =>
       map (fun '(i, t) => draw_bar i (ts_start t) (ts_dur t)
-                            (match ts_assigned t with [] => empty_set_text | l => join "," l end))
+                            (match ts_assigned t with [] => empty_set_text | l => join "," (map resobj_name l) end))
           (indexed 0 (scheduled_tasks s))
   | GResource =>
       flat_map (fun '(i, r) => map (fun '(t, a, b) => draw_bar i a (b - a) (show_task t)) (rs_assignments r))
@@ -40,7 +40,7 @@ Definition gantt_bars (s : solution) (m : gmode) : list gbar :=
 Definition gantt_labels (s : solution) (m : gmode) : list string :=
   match effective_mode s m with
   | GTask => map (fun t => show_task (ts_id t)) (scheduled_tasks s)
-  | GResource => map rs_name (so_resources s)
+  | GResource => map (fun r => resobj_name (rs_name r)) (so_resources s)
   end.
 
 (* buffer chart: all_x = [0] + change times + [horizon]; the k-th reported level is drawn over [all_x[k], all_x[k+1]] *)
